@@ -751,3 +751,110 @@ func ruleESC1() Rule {
 			}
 		}}
 }
+
+// ---------------------------------------------------------------------------
+// SM1: the match Match returns and the match it continues from are one result.
+
+func ruleSM1() Rule {
+	return Rule{ID: "SM1", Kind: "must-not", Floor: 1,
+		Doc: "Match answers only through the compiled regular expression: every successful return hands back an element of a FindStringSubmatch result (SM2). It narrows a suffix match by matching again behind the first character of the current match. What it returns (the capture group) and what it continues from (the whole match) are elements of one FindStringSubmatch result: no element of such a result is ever assigned on its own - shortening m[0] by hand (to step over a byte that does not decode) leaves the capture group of the longer match in place, and that is what gets returned",
+		Run: func(c *Ctx, rr *core.RuleResult) {
+			f := c.mustFn(rr, "pattern.Match")
+			if f == nil {
+				return
+			}
+			n := 0
+			bad := 0
+			c.regionNodes(f, func(g *core.Func, x ast.Node) bool {
+				info := g.Info()
+				// variables bound to a FindStringSubmatch result
+				switch s := x.(type) {
+				case *ast.CallExpr:
+					if strings.HasSuffix(calleeName(info, s), ".FindStringSubmatch") {
+						n++
+					}
+				case *ast.AssignStmt:
+					for _, l := range s.Lhs {
+						ix, ok := ast.Unparen(l).(*ast.IndexExpr)
+						if !ok {
+							continue
+						}
+						id, ok := ast.Unparen(ix.X).(*ast.Ident)
+						if !ok {
+							continue
+						}
+						obj := info.Uses[id]
+						if obj == nil || !boundToSubmatch(c, g, obj) {
+							continue
+						}
+						bad++
+						rr.Bad(g, f.Name+"|"+normExpr(info, l)+" assigned", s.Pos(), "an element of a FindStringSubmatch result is assigned on its own: the capture group that will be returned no longer belongs to the match the loop continues from (a subject with an invalid byte or U+FFFD gets a longer match than the smallest)")
+					}
+				}
+				return true
+			})
+			// SM2: what Match returns on success comes out of the regular expression
+			info := f.Info()
+			f.OwnNodes(func(x ast.Node) bool {
+				ret, ok := x.(*ast.ReturnStmt)
+				if !ok || len(ret.Results) != 2 || !isNilIdent(info, ret.Results[1]) {
+					return true
+				}
+				key := f.Name + "|return " + normExpr(info, ret.Results[0])
+				if ix, ok := ast.Unparen(ret.Results[0]).(*ast.IndexExpr); ok {
+					if id, ok := ast.Unparen(ix.X).(*ast.Ident); ok && boundToSubmatch(c, f, info.Uses[id]) {
+						rr.OK(f, key, ret.Pos(), "submatch", "the result is an element of a FindStringSubmatch result")
+						return true
+					}
+				}
+				bad++
+				rr.Bad(f, key, ret.Pos(), "Match reports success with a value that does not come out of the compiled regular expression: a second matcher in front of compile (a literal fast path) has to agree with the translation on every escape, bracket and malformed pattern")
+				return true
+			})
+			if n == 0 {
+				rr.Unk(f, f.Name+"|FindStringSubmatch", f.Pos(), "Match does not call FindStringSubmatch: idiom not recognised")
+			} else if bad == 0 {
+				rr.OK(f, f.Name+"|submatch results replaced as a whole", f.Pos(), "whole", fmt.Sprintf("%d FindStringSubmatch call(s); no element of a result is assigned", n))
+			}
+		}}
+}
+
+// boundToSubmatch reports whether obj is assigned from a FindStringSubmatch
+// call (directly, or from another variable that is) in g.
+func boundToSubmatch(c *Ctx, g *core.Func, obj types.Object) bool {
+	info := g.Info()
+	found := false
+	seen := map[types.Object]bool{}
+	var look func(o types.Object, depth int)
+	look = func(o types.Object, depth int) {
+		if seen[o] || depth > 3 || found {
+			return
+		}
+		seen[o] = true
+		visit := func(x ast.Node) bool {
+			as, ok := x.(*ast.AssignStmt)
+			if !ok || len(as.Lhs) != len(as.Rhs) {
+				return true
+			}
+			for i, l := range as.Lhs {
+				id, ok := l.(*ast.Ident)
+				if !ok || info.ObjectOf(id) != o {
+					continue
+				}
+				r := ast.Unparen(as.Rhs[i])
+				if call, ok := r.(*ast.CallExpr); ok && strings.HasSuffix(calleeName(info, call), ".FindStringSubmatch") {
+					found = true
+				}
+				if rid, ok := r.(*ast.Ident); ok {
+					if ro := info.Uses[rid]; ro != nil {
+						look(ro, depth+1)
+					}
+				}
+			}
+			return true
+		}
+		ast.Inspect(g.Root().Body, visit)
+	}
+	look(obj, 0)
+	return found
+}
